@@ -872,7 +872,7 @@ def check_C13(tier, seed):
                "equal static_cast<To>(source); (4) acceptance: minimal-requirement archetypes per operation, compiled as a trivially copyable variant and a non-trivial twin: whenever the twin is accepted the trivially copyable "
                "variant must be too, and every matrix cell must compile; tuple = (From->To, size relation, triviality) / twin id / probe id")
     # ---- (3) conversion matrix
-    parts = (1, 3, 4, 7) if tier == "quick" else (1, 2, 3, 4, 5, 6, 7, 8)
+    parts = (1, 3, 4, 7, 8) if tier == "quick" else (1, 2, 3, 4, 5, 6, 7, 8)
     jobs = []
     for part in parts:
         jobs.append({"src": "conv.cpp", "cc": "g++", "flags": ["-std=c++17", "-O0", "-g1", "-fsanitize=address,undefined", "-fno-sanitize-recover=all"], "defines": {"CONV_PART": part},
